@@ -9,5 +9,5 @@ mkdir -p $OUT
 for id in $IDS; do
   VERIF_SEED=$SEED /verif/check $id $TIER > $OUT/$id.log 2>&1; rc=$?
   echo "rc=$rc $(grep -a '^property=' $OUT/$id.log | tail -1)"
-  [ $rc -ne 0 ] && grep -a "VIOLATION\|INCONCLUSIVE\|rapid\] failed" $OUT/$id.log | cut -c1-300 | head -4
+  if [ $rc -ne 0 ]; then grep -a "VIOLATION\|INCONCLUSIVE\|rapid\] failed" $OUT/$id.log | cut -c1-300 | head -4; fi
 done
